@@ -1,1 +1,21 @@
-//! verif hook (child module): see /verif/hooks/verif.rs
+//! verif hook (child module of `merge_unbounded`)
+use super::*;
+
+impl<S> MergeUnbounded<S> {
+    pub fn verif_from_parts(groups: Vec<FuturesUnorderedBounded<S>>, poll_next: usize) -> Self {
+        let mut v = Vec::with_capacity(groups.len());
+        for g in groups {
+            v.push(MergeBounded { streams: g });
+        }
+        Self { groups: v, poll_next }
+    }
+    pub fn verif_group(&mut self, k: usize) -> &mut FuturesUnorderedBounded<S> {
+        &mut self.groups[k].streams
+    }
+    pub fn verif_n_groups(&self) -> usize {
+        self.groups.len()
+    }
+    pub fn verif_poll_next(&self) -> usize {
+        self.poll_next
+    }
+}
